@@ -68,7 +68,10 @@ class PreprocessorHexagon:
                         continue
                     elif in_qemu_gen or in_user_only:
                         continue
-                    if re.match(r"(\s*//)|(/\*)|(\s*\*)", line):  # Ignore comments
+                    is_continuation = res and re.search(r"\\\s*$", res[-1])
+                    if not is_continuation and re.match(
+                        r"(\s*//)|(/\*)|(\s*\*)", line
+                    ):  # Ignore comments
                         continue
                     res.append(line.strip("\n"))
         # Join lines with an \ at the end
